@@ -273,7 +273,7 @@ CHECKS["C05"] = {
     "rule": ("A case is a deadlock-free workload (1..3 RPCs: unary with sizes up to 5000, sequential streams, streams with sender and receiver on separate goroutines on both ends, handler errors, "
              "optional cancel of the call's context once it is over), a configuration and a director schedule (up to 150 choices; optionally 1..2 scheduling points held). The workload first runs fault-free and the I/O calls of "
              "each transport end are counted (N). Then it is RE-RUN under the same schedule once per (end, k, kind) with the fault injected at the k-th Read/Write call of that end, for k = 1..N+1 "
-             "(quick: every Stride-th k, Stride 1..4, and 2..3 of the 5 kinds; thorough: every k and all kinds: read error, read error delivered with data, write error after j bytes, peer close, local close). "
+             "(quick: every Stride-th k, Stride 1..4, and 2..3 of the kinds; thorough: every k and all kinds: read error, read error delivered with data, temporary-shaped error on a socket that stays usable, write error after j bytes, peer close, local close, application close). "
              "Oracle per fault run (flush mode): no scripted call is still inside the library at quiescence; the call whose own transport write failed returns an error; sends/invokes/new-streams issued after the failure fail; "
              "Closed() is closed and ServeOne has returned; no library goroutine remains; each transport closed at most once; every message delivered before the failure is a correct prefix on the right stream. "
              "Each fault run is one evaluation (sub-check fault_at_k); non-trivial = the fault actually fired. Distinct by (end, k, kind, trace, workload). " 
